@@ -176,5 +176,26 @@ func checkC13(e *RunEnv) *CheckResult {
 		},
 		CheckState: c13State,
 	}
-	return runSpec(e, spec, nil)
+	var sweep int
+	return runSpecWith(e, spec, func(x *Explorer) {
+		base := x.BuildState(seedS0())
+		if base == nil {
+			return
+		}
+		var cs []Case
+		for _, set := range subsetsUpTo(sharpNames, e.pick(3, 4)) {
+			steps := sweepBase(set)
+			first, last := set[0], set[len(set)-1]
+			// an unstaged edit, a deletion from the working tree, untracked files next to tracked ones
+			steps = append(steps, Write(first, v2(first)), Run("status"), Delete(last), Write("zz new", "new\n"), Write("d~/u", "untracked dir\n"), Run("status"))
+			if dp := dirPrefixes(set); len(dp) > 0 {
+				steps = append(steps, Rmdir(dp[0]), Run("status"))
+			}
+			cs = append(cs, Case{Base: base, BaseName: "S0", BaseSeed: seedS0(), Steps: steps, Probe: true})
+		}
+		sweep = x.RunCases(cs)
+	}, func(x *Explorer, cov map[string]interface{}) {
+		cov["name_sweep_cases"] = sweep
+		cov["states"] = x.States + sweep
+	})
 }
